@@ -16,11 +16,9 @@ import (
 	"net/http"
 	"os"
 	"path/filepath"
-	"runtime"
 	"strings"
 	"sync"
 	"sync/atomic"
-	"syscall"
 	"testing"
 	"testing/synctest"
 	"time"
@@ -159,8 +157,7 @@ func TestC17(t *testing.T) {
 		"'written since the last successful upload' is judged inclusively at the instant that upload began (the window between the loop's generation read and its file read cannot be scheduled into)",
 		"a loop that spins keeps the bubble from becoming idle; the watchdog outside the bubble then reports it with three CPU-time/stack samples as witness, anything else is inconclusive")
 	dir := evid.TempDir(t)
-	stop := make(chan struct{})
-	go watchdog(r, stop)
+	stop := r.SpinWatchdog(&progress, "periodicBackup", "backup-loop-spins", "the backup task spins on the CPU while nothing changes: virtual time cannot advance because the bubble never becomes idle")
 	n := r.N(1500, 20000)
 	for i := 0; i < n; i++ {
 		if r.Skip(i) {
@@ -168,7 +165,7 @@ func TestC17(t *testing.T) {
 		}
 		timeline(t, r, dir, i)
 	}
-	close(stop)
+	stop()
 	if r.Only < 0 {
 		smoke(t, r, dir)
 	}
@@ -444,64 +441,6 @@ func timeline(t *testing.T, r *evid.Run, dir string, idx int) {
 			r.Sample(map[string]any{"timeline": idx, "events": trace, "uploads": invs, "writes": writes})
 		}
 	})
-}
-
-// watchdog runs outside every bubble. If the driver makes no progress for a while it decides
-// whether the process is spinning inside the backup loop.
-func watchdog(r *evid.Run, stop chan struct{}) {
-	last, lastChange := progress.Load(), time.Now()
-	for {
-		select {
-		case <-stop:
-			return
-		case <-time.After(500 * time.Millisecond):
-		}
-		if p := progress.Load(); p != last {
-			last, lastChange = p, time.Now()
-			continue
-		}
-		if time.Since(lastChange) < 15*time.Second {
-			continue
-		}
-		cpu := func() time.Duration {
-			var ru syscall.Rusage
-			syscall.Getrusage(syscall.RUSAGE_SELF, &ru)
-			return time.Duration(ru.Utime.Nano() + ru.Stime.Nano())
-		}
-		spinning := 0
-		var dump string
-		for s := 0; s < 3; s++ {
-			c0 := cpu()
-			time.Sleep(time.Second)
-			c1 := cpu()
-			buf := make([]byte, 1<<20)
-			buf = buf[:runtime.Stack(buf, true)]
-			dump = string(buf)
-			inLoop := false
-			for _, g := range strings.Split(dump, "\n\n") {
-				if strings.Contains(g, "periodicBackup") && !strings.Contains(g, "[select") && !strings.Contains(g, "[chan receive") && !strings.Contains(g, "[sleep") {
-					inLoop = true
-				}
-			}
-			if c1-c0 > 800*time.Millisecond && inLoop {
-				spinning++
-			}
-		}
-		if progress.Load() != last {
-			continue
-		}
-		if spinning == 3 {
-			if len(dump) > 8000 {
-				dump = dump[:8000]
-			}
-			r.Violation("backup-loop-spins", -1, "the backup task spins on the CPU while nothing changes: virtual time cannot advance because the bubble never becomes idle (3 samples: >0.8 s CPU per second with the loop goroutine running)", map[string]any{"stacks": dump})
-		} else {
-			r.Inconclusive("the driver made no progress for 15 s but the backup loop is not visibly spinning")
-		}
-		// a stuck bubble cannot be torn down
-		fmt.Fprintln(os.Stderr, "c17 watchdog: giving up on a stuck bubble")
-		os.Exit(3)
-	}
 }
 
 // smoke: server.New with a backup bucket starts the task; the first upload is byte-exact (real time, loopback).
